@@ -19,7 +19,7 @@ func init() { register("C18", checkC18) }
 const pParserAST = "github.com/arana-db/parser/ast"
 
 func checkC18(r *core.Run) {
-	r.Explain = "The property itself (recorded image == rows the statement changed) ranges over database contents and is NOT decidable statically. Three structural necessary conditions are decided: (C18.derive) the before-image SELECT of update/delete (and their multi-statement variants) takes From/Where/OrderBy/Limit from the business statement's own AST nodes and locks FOR UPDATE, and the argument selection traverses exactly the expression-bearing clauses that were copied; (C18.markers) the parameter-marker collector is complete: it walks the expression with the parser's visitor, or its type switch covers every expression node type of the parser that has expression children and recurses into all of them; (C18.scan) the scan-type table and the JDBC code table agree for every MySQL data type (no integer scan type for a binary/text code and the like); (C18.rows) every loop over a result set in the executors asks Err() before reporting success, so a read that failed mid-way is not taken for the complete image; (C18.case) a column name in folded form (CIStr.L, strings.ToLower/ToUpper) is compared with or looked up among metadata names only when these are folded the same way (a small qualifier analysis over value origins: lower / upper / metadata spelling); (C18.sticky) where one image query covers several statements, the flag that keeps the WHERE clause in that query can only be lowered inside the loop over the statements (once a statement without WHERE was seen the whole table is selected, whatever follows); (C18.clause) an optional clause of the parsed statement (Where, Limit, Order/OrderBy — nil when the statement has none) is used as a method receiver only where it was tested non-nil on every path, so a statement without that clause is handled or rejected instead of crashing the executor; (C18.recorded) an executor adds a before/after image to the transaction's round images only on the nil-error edge of the business statement (the callback) and only after both images were built without error — an image recorded for a statement the database refused describes rows that were not changed; (C18.fresh) util.ScanRows.Scan leaves a destination untouched when the source column is NULL, so every call to it inside a row loop gets destinations created inside that loop iteration (a destination slice built once per result set makes a NULL column of a later row keep the previous row's value)."
+	r.Explain = "The property itself (recorded image == rows the statement changed) ranges over database contents and is NOT decidable statically. Three structural necessary conditions are decided: (C18.derive) the before-image SELECT of update/delete (and their multi-statement variants) takes From/Where/OrderBy/Limit from the business statement's own AST nodes and locks FOR UPDATE, and the argument selection traverses exactly the expression-bearing clauses that were copied; (C18.markers) the parameter-marker collector is complete: it walks the expression with the parser's visitor, or its type switch covers every expression node type of the parser that has expression children and recurses into all of them; (C18.scan) the scan-type table and the JDBC code table agree for every MySQL data type (no integer scan type for a binary/text code and the like); (C18.rows) every loop over a result set in the executors asks Err() before reporting success, so a read that failed mid-way is not taken for the complete image; (C18.case) a column name in folded form (CIStr.L, strings.ToLower/ToUpper) is compared with or looked up among metadata names only when these are folded the same way (a small qualifier analysis over value origins: lower / upper / metadata spelling); (C18.sticky) where one image query covers several statements, the flag that keeps the WHERE clause in that query can only be lowered inside the loop over the statements (once a statement without WHERE was seen the whole table is selected, whatever follows); (C18.clause) an optional clause of the parsed statement (Where, Limit, Order/OrderBy — nil when the statement has none) is used as a method receiver only where it was tested non-nil on every path, so a statement without that clause is handled or rejected instead of crashing the executor; (C18.recorded) an executor adds a before/after image to the transaction's round images only on the nil-error edge of the business statement (the callback) and only after both images were built without error — an image recorded for a statement the database refused describes rows that were not changed; (C18.fresh) util.ScanRows.Scan leaves a destination untouched when the source column is NULL, so every call to it inside a row loop gets destinations created inside that loop iteration (a destination slice built once per result set makes a NULL column of a later row keep the previous row's value). (C18.derive, also) the upsert's after-image query has one origin on every path, the builder derived from the statement's key values; (C18.scan, also) ColumnMeta.ColumnDef is set from COLUMN_DEFAULT unconditionally or under a NULL test only;"
 	r.Trusted = []string{"go/types", "github.com/arana-db/parser: Accept visits every child node", "MySQL information_schema DATA_TYPE spellings (reference list)"}
 	w := r.W
 	_, live := liveATExecutors(w)
